@@ -238,6 +238,10 @@ class ActorMain:
                 self.send({"parked": i})
                 d = self.recv()
                 if d["do"] == "abort":
+                    if state.get("stmt", "").lstrip().upper().startswith("ROLLBACK"):
+                        # the insert has already failed for another reason and the store is rolling back: the interrupt is aimed
+                        # at the write, not at the store's error handling (an interrupted ROLLBACK leaves the transaction open)
+                        return 0
                     conn.set_progress_handler(None, 0)  # one-shot, like sqlite3_interrupt()
                     return 1
                 if d["do"] == "free":
@@ -245,6 +249,7 @@ class ActorMain:
                 return 0
 
             conn.set_progress_handler(handler, park_every)
+            conn.set_trace_callback(lambda sql: state.__setitem__("stmt", sql))
         try:
             try:
                 if cmd.get("via_logger"):
@@ -260,6 +265,7 @@ class ActorMain:
             finally:
                 if park_every:
                     conn.set_progress_handler(None, 0)
+                    conn.set_trace_callback(None)
         except Exception as e:
             return {"err": "%s: %s" % (type(e).__name__, e), "expected": expected, "parks": state["i"]}
         return {"ok": True, "expected": expected, "parks": state["i"]}
